@@ -1079,6 +1079,24 @@ func (st *State) specCall(e *SExpr, env *specEnv) Value {
 			lo := st.coerceTo(st.widenIndex(st.evalSpec(args[1], env)), BV(64), env)
 			hi := st.coerceTo(st.widenIndex(st.evalSpec(args[2], env)), BV(64), env)
 			return Value{S: SBytes, Term: app("bseq", x.Term, lo.Term, app("bvsub", hi.Term, lo.Term))}
+		case "lbytes":
+			// lbytes(s, n): the bytes of the slice s extended by n bytes to the LEFT within its
+			// backing array (a stored key seen through the sub-slice key[n:] that was handed out)
+			if len(args) != 2 {
+				env.fail("lbytes takes a byte slice and a count")
+			}
+			x := st.evalSpec(args[0], env)
+			if x.S != SSlice {
+				env.fail("lbytes(%s, ..): not a slice", args[0])
+			}
+			n := st.coerceTo(st.widenIndex(st.evalSpec(args[1], env)), BV(64), env)
+			a := app("select", st.elemsArr(env.heap, BV(8)), app("s_ref", x.Term))
+			return Value{S: SBytes, Term: app("bseq", a, app("bvsub", app("s_off", x.Term), n.Term), app("bvadd", app("s_len", x.Term), n.Term))}
+		case "b1":
+			// b1(x): the one-byte string holding x
+			x := st.coerceTo(st.evalSpec(args[0], env), BV(8), env)
+			st.eng.pre.Fun("b1", "((_ BitVec 8)) Bytes")
+			return Value{S: SBytes, Term: app("b1", x.Term)}
 		case "bsplit":
 			// bsplit(s, k): a reminder of a fact of the byte model, bytes(s) == cat(bytes(s[:k]), bytes(s[k:]))
 			// for 0 <= k <= len(s); it is added to the hypotheses and the expression itself is true
